@@ -5,7 +5,7 @@ from props._cfg_common import TRUSTED, ASSUMPTIONS, TECHNIQUE
 
 PROP = "C12"
 LEVEL = "other"
-THEOREMS = {"Properties.C12": []}
+THEOREMS = {"Properties.C12": ["C12_generating", "C12_nullable", "C12_reachable", "C12_is_empty"]}
 LEVEL_TEXT = ("Partial proof + correspondence: generating / nullable / reachable symbols and is_empty are modelled by least fixed points (saturation, closure) "
               "and compared exactly with pyformlang's answers; theorems proved so far are listed in the evidence.")
 LEVEL_NOTE = "Trusted: Coq kernel; hand-written model validated by correspondence; Python harness."
